@@ -26,7 +26,8 @@ EXTENDS Integers, Sequences, FiniteSets, TLC, Json
 
 CONSTANTS Toks,        \* operand tokens of this configuration
           BinOps, UnOps,
-          MaxDepth     \* operator nesting depth
+          MaxDepth,    \* operator nesting depth
+          FloorDiv     \* TRUE: Python's floor division (FALSE = C-style truncation: the specification-level mutant)
 
 VARIABLES e
 vars == <<e>>
@@ -50,6 +51,7 @@ Next == Leaf \/ Unary \/ BinL \/ BinR
 Spec == Init /\ [][Next]_vars
 
 \* ------------------------------------------------------------------ run-time values (small-int part)
+Abs(n) == IF n < 0 THEN -n ELSE n
 Limit == 1048576       \* 2^20: the specification abstains beyond
 IntV(n) == [t |-> "int", v |-> n]
 BoolV(b) == [t |-> "bool", v |-> IF b THEN 1 ELSE 0]
@@ -61,10 +63,10 @@ TokVal(t) == CASE t = "i0" -> IntV(0) [] t = "i1" -> IntV(1) [] t = "i2" -> IntV
                [] t = "bT" -> BoolV(TRUE) [] t = "bF" -> BoolV(FALSE)
                [] t = "nFI" -> IntV(3) [] t = "nNV" -> IntV(3) [] t = "nFN" -> IntV(-2) [] t = "nFB" -> BoolV(TRUE)
                [] OTHER -> Abstain
-Abs(n) == IF n < 0 THEN -n ELSE n
 Small(n) == IF Abs(n) > Limit THEN Abstain ELSE IntV(n)
 \* Python: q = floor(a / b), r = a - q*b has the sign of b
-PyFloorDiv(a, b) == IF b > 0 THEN a \div b ELSE (-a) \div (-b)
+PyFloorDiv(a, b) == IF FloorDiv THEN (IF b > 0 THEN a \div b ELSE (-a) \div (-b))
+                    ELSE (IF (a < 0) = (b < 0) THEN Abs(a) \div Abs(b) ELSE -(Abs(a) \div Abs(b)))
 PyMod(a, b) == a - b * PyFloorDiv(a, b)
 Mul(a, b) == IF a = 0 \/ b = 0 THEN IntV(0) ELSE IF Abs(b) > Limit \div Abs(a) THEN Abstain ELSE Small(a * b)
 RECURSIVE PowG(_, _)     \* -1 = too big
